@@ -260,14 +260,14 @@ func init() {
 
 func runC20(c *Ctx) {
 	quick := c.Quick()
-	// bound(scenario, budget): quick = 1 everywhere and 2 for the first three scripts under the
-	// single-disturbance budgets; thorough = 2 everywhere, 3 for the single-disturbance budgets and
+	// bound(scenario, budget): quick = 1 everywhere, 2 for the first three scripts under the
+	// single-disturbance budgets and for every budget of the first script; thorough = 2 everywhere, 3 for the single-disturbance budgets and
 	// for every budget of the first three scripts, 4 for the first script under single disturbances.
 	Pmax := 2
 	bound := func(si, bi int) int {
 		if quick {
-			if si < 3 && bi < 2 {
-				return 2
+			if (si < 3 && bi < 2) || si == 0 {
+				return 2 // incl. two disturbances, each handled while the loop waits, for the first script
 			}
 			return 1
 		}
